@@ -77,8 +77,26 @@ fn innermost_re(v: &Value) -> &Value {
     x
 }
 
-fn zeros(r: usize, c: usize) -> Value {
-    json!({"p": true, "m": (0..r).map(|_| (0..c).map(|_| json!([0, 1])).collect::<Vec<_>>()).collect::<Vec<_>>(), "dims": [r, c]})
+/// the zero of the scalar level: a rational, or (nested types) the zero of the inner scalar dual number type
+fn scalar_zero(inner: Option<&Value>) -> Value {
+    let Some(k) = inner.and_then(|i| i["k"].as_str()) else { return json!([0, 1]) };
+    let fields: &[&str] = match k {
+        "Dual" => &["eps"],
+        "Dual2" => &["v1", "v2"],
+        "Dual3" => &["v1", "v2", "v3"],
+        "HyperDual" => &["eps1", "eps2", "eps1eps2"],
+        _ => &["eps1", "eps2", "eps3", "eps1eps2", "eps1eps3", "eps2eps3", "eps1eps2eps3"],
+    };
+    let mut o = serde_json::Map::new();
+    o.insert("re".into(), json!([0, 1]));
+    for f in fields {
+        o.insert((*f).into(), json!([0, 1]));
+    }
+    Value::Object(o)
+}
+
+fn zeros(r: usize, c: usize, inner: Option<&Value>) -> Value {
+    json!({"p": true, "m": (0..r).map(|_| (0..c).map(|_| scalar_zero(inner)).collect::<Vec<_>>()).collect::<Vec<_>>(), "dims": [r, c]})
 }
 
 /// explicit zeros instead of absent parts, dimensions from the TLC type descriptor
@@ -101,7 +119,7 @@ fn zero_fill(v: &Value, ty: &Value) -> Value {
         for (f, x) in o.iter_mut() {
             if x.get("p") == Some(&Value::Bool(false)) {
                 let (r, c) = dims(f);
-                *x = zeros(r, c);
+                *x = zeros(r, c, ty.get("inner"));
             }
         }
     }
